@@ -84,3 +84,20 @@ Theorem rl_corrupt_ts_refuted :
   rl_msgs (rl_rr_out (rl_replay rl_w_topo 40 rl_w_ep (rl_w_st (rl_set_byte rl_w_off 57 rl_w_file)))) = [rl_mk_msg 1 10] /\
   nth rl_w_off rl_w_file 0 = 49.
 Proof. vm_compute. repeat split. Qed.
+
+(* ---- the second recorded finding on the model: during replay the sender emits log::SetLogPosition carrying the name of
+   ITS OWN log file; the peer (same code) takes it as confirmation of the PEER's log.  Two nodes in the same situation
+   (each kept three events for the other during the outage): the stream node A emits contains RlOutPos 21 and 41; node B
+   handles them before its own replay starts and then replays NOTHING, although A never received B's three events. ---- *)
+Theorem rl_setpos_refuted :
+  let stB := rl_w_st rl_w_file in
+  let emitted_by_A := rl_rr_out (rl_replay rl_w_topo 40 rl_w_ep stB) in          (* A is in the same state as B *)
+  emitted_by_A = [RlOutMsg (rl_mk_msg 1 10); RlOutPos 21; RlOutMsg (rl_mk_msg 2 20); RlOutMsg (rl_mk_msg 3 30); RlOutPos 41] /\
+  let stB' := rl_feed_acks 1 emitted_by_A stB in
+  option_map rl_ep_pos (rl_get_ep (rl_eps stB') 1) = Some 41 /\
+  (forall ep', rl_get_ep (rl_eps stB') 1 = Some ep' -> rl_msgs (rl_rr_out (rl_replay rl_w_topo 40 ep' stB')) = []) /\
+  length (filter (rl_sel rl_w_topo 1 0) (rl_log_entries stB)) = 3%nat.
+Proof.
+  cbv zeta. split; [vm_compute; reflexivity|]. split; [vm_compute; reflexivity|]. split; [|vm_compute; reflexivity].
+  intros ep' H. vm_compute in H. inversion H; subst. vm_compute. reflexivity.
+Qed.
